@@ -467,3 +467,69 @@ Definition text_ok (t : tframe) : bool :=
                     forallb (fun x => cr_ok (render x)) (snd c)) t.
 
 Definition frame_safe (t : tframe) : bool := text_ok t && forallb (fun c => col_safe (snd c)) t.
+
+(* ------------------------------------------------------------------ *)
+(* the typed graph: from the stored arrays to the two CSV texts        *)
+(* ------------------------------------------------------------------ *)
+(* Table.v moves opaque payloads.  Here every stored value has its kind; the payload handed to Table.v
+   is the POSITION of the value in a pool (ids first, then the values of each property in stored order),
+   so that the export of Table.v is reused as it is and the exported cells are looked up again.
+   A float stored as NaN is a missing cell for pandas: it is given as TNA. *)
+Record tprop := mkTProp {
+  tp_name : string;
+  tp_shape : list nat;
+  tp_vals : list tcell;
+  tp_miss : option (list bool)
+}.
+
+Record tgraph := mkTGraph {
+  tg_ids : list Z;
+  tg_nprops : list tprop;
+  tg_edges : list (Z * Z);
+  tg_eprops : list tprop
+}.
+
+Definition zseq (start len : nat) : list Z := map Z.of_nat (seq start len).
+
+Fixpoint erase_props (off : nat) (ps : list tprop) : list prop :=
+  match ps with
+  | [] => []
+  | p :: r => mkProp (tp_name p) (tp_shape p) (zseq off (List.length (tp_vals p))) (tp_miss p)
+              :: erase_props (off + List.length (tp_vals p)) r
+  end.
+
+Definition pool_of (idvals : list Z) (ps : list tprop) : list tcell :=
+  map TInt idvals ++ flat_map tp_vals ps.
+
+Definition node_pool (g : tgraph) : list tcell := pool_of (tg_ids g) (tg_nprops g).
+Definition edge_pool (g : tgraph) : list tcell :=
+  pool_of (map fst (tg_edges g) ++ map snd (tg_edges g)) (tg_eprops g).
+
+Definition erase (g : tgraph) : graph :=
+  let n := List.length (tg_ids g) in
+  let e := List.length (tg_edges g) in
+  mkGraph (zseq 0 n) (erase_props n (tg_nprops g))
+          (combine (zseq 0 e) (zseq e e)) (erase_props (e + e) (tg_eprops g)).
+
+Definition decode (pool : list tcell) (c : cell) : tcell :=
+  match c with Val z => nth (Z.to_nat z) pool TNA | NaN => TNA end.
+
+Definition typed_table (pool : list tcell) (t : table) : tframe :=
+  map (fun c => (fst c, map (decode pool) (snd c))) t.
+
+(* the frames handed to to_csv, with typed cells *)
+Definition node_tframe (g : tgraph) : tframe := typed_table (node_pool g) (fst (node_frame (erase g))).
+Definition edge_tframe (g : tgraph) : tframe := typed_table (edge_pool g) (fst (edge_frame (erase g))).
+
+(* the bytes of "<outpath>-nodes.csv" and "<outpath>-edges.csv" after a successful geff_to_csv *)
+Definition csv_texts (g : tgraph) : string * string :=
+  (to_csv_text (node_tframe g), to_csv_text (edge_tframe g)).
+
+(* bits of the float64 that holds the integer z exactly (z as produced by round_f64) *)
+Definition f64_bits_of_int (z : Z) : Z :=
+  if Z.eqb z 0 then 0%Z
+  else
+    let a := Z.abs z in
+    let e := Z.log2 a in
+    let m := if Z.leb e 52 then Z.shiftl a (52 - e) else Z.shiftr a (e - 52) in
+    ((if Z.ltb z 0 then 2 ^ 63 else 0) + Z.shiftl (e + 1023) 52 + (m - 2 ^ 52))%Z.
